@@ -43,3 +43,12 @@ Theorem C13_skip_filter_preserves_rendering : forall gs skip gs',
       forall F r, resolve F gs g = Some r -> exists r', resolve F gs' g' = Some r' /\ Permutation r r'.
 Proof. exact skip_filter_preserves_rendering. Qed.
 Print Assumptions C13_skip_filter_preserves_rendering.
+
+From U2F Require Import Geometry.Examples.
+(* non-vacuity: skipping the mirrored intermediate composite b of the example glyph set *)
+Example C13_skip_on_example :
+  exists gs', skip_filter ex_gs [n_b] = Some gs' /\ keys gs' = [n_a; n_c; n_d] /\
+    (exists r, resolve_n gs' n_c = Some r /\ length r = 2%nat) /\
+    forallb (fun ng => forallb (fun bt => negb (mem (fst bt) [n_b])) (gcomps (snd ng))) gs' = true.
+Proof. exact ex_skip. Qed.
+Print Assumptions C13_skip_on_example.
